@@ -34,8 +34,9 @@ def run(rep):
         "__slots__ classes list the rule attributes, parent, _tx_position(_end) and __weakref__; a __slots__ class is never the root",
         "references are resolved by a PlainNameImportURI provider wrapped by the harness (Postponed / raise / nested load as scheduled)",
         "object processors only on concrete rules; their order (C13) is taken as post-order, list order",
-        "provider that swallows the failure of its nested load: only scenarios where the module's prediction of the "
-        "outer load is unambiguous (userclasses_check.in_fragment)",
+        "no provider-triggered nested load together with a global repository (userclasses_check.in_fragment; while the "
+        "finding RestoreWithoutInstrument is open also: provider swallowing a nested failure only in shapes where the "
+        "deviation clause predicts the outer load unambiguously)",
         "not judged here: what stays reachable after a failure and the follow-up comparison (C15)",
     ]
     # (M)
